@@ -103,6 +103,24 @@ func main() {
 		os.Exit(runReplayFile(repo, verif, os.Args[2]))
 	case "stability":
 		os.Exit(runStability(repo, verif, os.Args[2]))
+	case "conform":
+		// development aid: conformance sampling of one function (govc conform Cxx <module-relative function>)
+		pc, err := loadProp(verif, os.Args[2])
+		if err != nil {
+			fmt.Fprintln(os.Stderr, err)
+			os.Exit(2)
+		}
+		e := NewEngine(repo, verif)
+		if err := e.Load(pc.Packages); err != nil {
+			fmt.Fprintln(os.Stderr, err)
+			os.Exit(2)
+		}
+		n, per, mism := e.conformance([]string{modPath + "/" + os.Args[3]}, 7, 300)
+		fmt.Println(n, per)
+		for _, m := range mism {
+			fmt.Println("MISMATCH", m)
+		}
+		os.Exit(0)
 	}
 	fmt.Fprintln(os.Stderr, "unknown command")
 	os.Exit(2)
